@@ -238,6 +238,26 @@ def specApiLine (namesTok legacy mask : String) : String :=
   let specT (n : String) := if n == "mainnet" then some Constants.mainnet else if n == "minimal" then some Constants.minimal else none
   answer genT ++ " | " ++ answer specT
 
+def schedStr (spe : UInt64) (c : Schedule) : String :=
+  ",".intercalate ([toString spe.toNat] ++ (Fork.all.map (fun f => hexU32 (c.versionOf f))) ++
+    ((Fork.all.drop 1).map (fun f => toString (c.epochOf f))))
+
+/-- `cfgfile S a,b,c`: a configuration written to YAML files and loaded through `configs.SpecOptions.Spec`
+carries exactly the written values (oracle: what was written), and reports the version of `forkAt` of the
+written schedule at epochs 0 and 1. The model column evaluates the regenerated `ForkVersion` on the written
+schedule. -/
+def cfgFileLine (sTok extra : String) : String :=
+  match parseSchedule sTok, (extra.splitOn ",").mapM parseU64 with
+  | some (spe, c), some [a, b, d] =>
+    if spe = 0 || !decide c.Monotone then "bad-op" else
+    let head := s!"ok {schedStr spe c} {a.toNat},{b.toNat},{d.toNat}"
+    let fvM (slot : UInt64) := match Gen.GoFuns.ForkVersion (goSpec spe c) slot with
+      | .ok v => hexU32 v
+      | r => r.render hexU32
+    head ++ s!" fv0={fvM 0} fv1={fvM spe}" ++ " | " ++
+      head ++ s!" fv0={hexU32 (versionAt c 0)} fv1={hexU32 (versionAt c 1)}"
+  | _, _ => "bad-op"
+
 def c14Line (line : String) : String :=
   let toks := tokens line
   let bad := "bad-op"
@@ -290,6 +310,7 @@ def c14Line (line : String) : String :=
   | "chaing" :: s :: targets => chainLine "chaing" s targets
   | "dom" :: s :: gvr :: targets => domLine s gvr targets
   | ["specapi", names, legacy, mask] => specApiLine names legacy mask
+  | ["cfgfile", sTok, extra] => cfgFileLine sTok extra
   | ["env", fork, _seed] =>
     match Fork.ofName? fork with
     | some f =>
